@@ -43,10 +43,18 @@ Kinds == {"grouping", "typedef", "identity", "feature"}
      imp   : import statements <<m, t>>            (prefix "p" \o t)
      subs  : submodules supplied <<s, b>>          (s belongs-to b)
      inc   : include statements <<u, s>>           (u a module or submodule)
-     defs  : definitions [k, n, home, refs, nest]  (k in Kinds, home in mods,
-             refs a set of [m, n]: "prefix of module m : n", unprefixed if
-             m = home; nest: a grouping's uses are written inside its container)
-     roots : uses from data nodes [home, k, m, n]  (k in Kinds or "subtype")
+     defs  : definitions [k, n, home, refs, nest]  (k in Kinds; home is the SCOPE in
+             which the definition is written: a module "m1", or - groupings and
+             typedefs - a container of it "m1.x1"; refs a set of [m, n]: "prefix of
+             module m : n", unprefixed if m is the home's module; nest: a grouping's
+             uses are written inside its container)
+     roots : uses from data nodes [home, k, m, n]  (k in Kinds or "subtype"; home is
+             the scope in which the using data node is written)
+             Scoping (RFC 6020 5.5, 6.2.1): an unprefixed name is looked up in the scope
+             of the reference first, then at the top level of its module; a prefixed
+             name only at the top level of the named module.  The same name may be
+             defined in two modules and in two sibling scopes of one module; a scope
+             must not redefine a name of its module's top level (shadowing = error).
      augs  : [m, t, n]      module m augments /t:t<t>/t:k<n> with leaf x<m>
      devs  : [m, t, n, how, by]  module m deviates the leaf l<n> of that container
              (how = "ns" not-supported | "rep" replace default) or, how = "nsx",
@@ -71,14 +79,25 @@ Imports(I, h) == {e[2] : e \in {x \in I.imp : x[1] = h}}
 DefsK(I, k) == {d \in I.defs : d.k = k}
 DefKey(d) == <<d.home, d.n>>
 Ref(m, n) == [m |-> m, n |-> n]
-Target(I, k, r) == {d \in I.defs : d.k = k /\ d.home = r.m /\ d.n = r.n}
-TargetDef(I, k, r) == CHOOSE d \in Target(I, k, r) : TRUE
-\* a reference written in module h resolves: known prefix, module supplied, name defined
-Resolves(I, h, k, r) == /\ (r.m = h \/ r.m \in Imports(I, h))
+\* scopes: "m1" = top level of module m1, "m1.x1" = inside container x1 of m1
+ModH(h) == SubSeq(h, 1, 2)
+Scoped(h) == Len(h) > 2
+\* the definitions a reference r of kind k written in scope h denotes (0 or 1)
+Target(I, k, h, r) ==
+  LET inScope == {d \in I.defs : d.k = k /\ d.n = r.n /\ d.home = h}
+      atTop == {d \in I.defs : d.k = k /\ d.n = r.n /\ d.home = r.m}
+  IN IF r.m = ModH(h) /\ Scoped(h) /\ inScope # {} THEN inScope ELSE atTop
+TargetDef(I, k, h, r) == CHOOSE d \in Target(I, k, h, r) : TRUE
+\* a reference written in scope h resolves: known prefix, module supplied, name defined
+Resolves(I, h, k, r) == /\ (r.m = ModH(h) \/ r.m \in Imports(I, ModH(h)))
                         /\ r.m \in I.mods
-                        /\ Target(I, k, r) # {}
-KEdges(I, k) == UNION {{<<DefKey(d), <<r.m, r.n>>>> : r \in {x \in d.refs : Resolves(I, d.home, k, x)}} : d \in DefsK(I, k)}
+                        /\ Target(I, k, h, r) # {}
+KEdges(I, k) == UNION {{<<DefKey(d), DefKey(TargetDef(I, k, d.home, r))>> : r \in {x \in d.refs : Resolves(I, d.home, k, x)}} : d \in DefsK(I, k)}
 SubTypeOK(I, r) == r.n \in SubsOf(I, r.home) /\ <<r.home, r.n>> \in I.inc
+\* a scope redefines a name of the top level of its module
+ShadowIn(I, m) == \E d1 \in I.defs : \E d2 \in I.defs :
+                     d1.k = d2.k /\ d1.n = d2.n /\ Scoped(d2.home) /\ d1.home = ModH(d2.home) /\ d1.home = m
+Shadow(I) == \E m \in I.mods : ShadowIn(I, m)
 RootResolves(I, r) == IF r.k = "subtype" THEN SubTypeOK(I, r) ELSE Resolves(I, r.home, r.k, Ref(r.m, r.n))
 
 \* ------------------------------------------------------------- meaning: verdict
@@ -91,10 +110,11 @@ DefCycle(I) == \E k \in Kinds : HasCycle(KEdges(I, k))
 Dangling(I) == \/ \E d \in I.defs : \E r \in d.refs : ~Resolves(I, d.home, d.k, r)
                \/ \E r \in I.roots : ~RootResolves(I, r)
 RefError(I) == BadBelongs(I) \/ BadInclude(I) \/ IncludeCycle(I) \/ ImportCycle(I) \/ ImportAbsent(I)
-               \/ DefCycle(I) \/ Dangling(I)
+               \/ DefCycle(I) \/ Dangling(I) \/ Shadow(I)
 
 \* ------------------------------------------------------------- meaning: schema
 Top(m) == "/" \o m \o ":t" \o m
+ScopeTop(h) == IF Scoped(h) THEN "/" \o ModH(h) \o ":" \o SubSeq(h, 4, Len(h)) ELSE Top(h)
 Node(p, t, via, d, ids) == [p |-> p, t |-> t, via |-> via, d |-> d, ids |-> ids, ns |-> FALSE]
 \* the nodes a `uses` of grouping g contributes below path P in using module u (RFC 6020 7.12:
 \* the grouping's nodes are copied into the namespace of the using module); `via` tells two
@@ -104,24 +124,28 @@ GExp(I, g, P, u, via) ==
   LET v2 == via \o ">" \o g.n
       kp == P \o "/" \o u \o ":k" \o g.n
   IN {Node(kp, "c", v2, "", {}), Node(kp \o "/" \o u \o ":l" \o g.n, "l", v2, "d0", {})}
-     \cup UNION {GExp(I, TargetDef(I, "grouping", r), IF g.nest THEN kp ELSE P, u, v2) : r \in g.refs}
+     \cup UNION {GExp(I, TargetDef(I, "grouping", g.home, r), IF g.nest THEN kp ELSE P, u, v2) : r \in g.refs}
 \* identities derived (transitively) from identity i: "module:name"
 Derived(I, i) == LET E == {<<e[2], e[1]>> : e \in KEdges(I, "identity")} IN {x[1] \o ":" \o x[2] : x \in Reach1(E, i)}
 RECURSIVE FeatOn(_, _)
-FeatOn(I, f) == f.n \notin I.off /\ \A r \in f.refs : FeatOn(I, TargetDef(I, "feature", r))
+FeatOn(I, f) == f.n \notin I.off /\ \A r \in f.refs : FeatOn(I, TargetDef(I, "feature", f.home, r))
 RootNodes(I, r) ==
-  LET P == Top(r.home)  lp(x) == P \o "/" \o r.home \o ":" \o x \o r.n IN
-  CASE r.k = "grouping" -> GExp(I, TargetDef(I, "grouping", Ref(r.m, r.n)), P, r.home, "")
+  LET P == ScopeTop(r.home)  u == ModH(r.home)  lp(x) == P \o "/" \o u \o ":" \o x \o r.n
+      T(k) == TargetDef(I, k, r.home, Ref(r.m, r.n)) IN
+  CASE r.k = "grouping" -> GExp(I, T("grouping"), P, u, "")
     [] r.k = "typedef"  -> {Node(lp("rt"), "l", "", "", {})}
     [] r.k = "subtype"  -> {Node(lp("ru"), "l", "", "", {})}
-    [] r.k = "identity" -> {Node(lp("ri"), "l", "", "", Derived(I, <<r.m, r.n>>))}
-    [] r.k = "feature"  -> IF FeatOn(I, TargetDef(I, "feature", Ref(r.m, r.n))) THEN {Node(lp("rf"), "l", "", "", {})} ELSE {}
+    [] r.k = "identity" -> {Node(lp("ri"), "l", "", "", Derived(I, DefKey(T("identity"))))}
+    [] r.k = "feature"  -> IF FeatOn(I, T("feature")) THEN {Node(lp("rf"), "l", "", "", {})} ELSE {}
 \* data nodes written in (or expanded into) module m itself; the nodes of a submodule join the
 \* module that includes it
 SubNodes(I, m) == UNION {{Node("/" \o m \o ":c" \o s, "c", "", "", {}), Node("/" \o m \o ":c" \o s \o "/" \o m \o ":l", "l", "", "", {})}
                          : s \in {x \in SubsOf(I, m) : <<m, x>> \in I.inc}}
+\* the containers that are scopes of module m (each holds a leaf l0, its definitions and its uses)
+ScopesOf(I, m) == {h \in {d.home : d \in I.defs} \cup {r.home : r \in I.roots} : Scoped(h) /\ ModH(h) = m}
 Literal(I, m) == {Node(Top(m), "c", "", "", {}), Node(Top(m) \o "/" \o m \o ":l0", "l", "", "", {})} \cup SubNodes(I, m)
-OwnNodes(I, m) == Literal(I, m) \cup UNION {RootNodes(I, r) : r \in {x \in I.roots : x.home = m}}
+                 \cup UNION {{Node(ScopeTop(h), "c", "", "", {}), Node(ScopeTop(h) \o "/" \o m \o ":l0", "l", "", "", {})} : h \in ScopesOf(I, m)}
+OwnNodes(I, m) == Literal(I, m) \cup UNION {RootNodes(I, r) : r \in {x \in I.roots : ModH(x.home) = m}}
 AugTarget(a) == Top(a.t) \o "/" \o a.t \o ":k" \o a.n
 AugLeaf(a) == Node(AugTarget(a) \o "/" \o a.m \o ":x" \o a.m, "l", "", "", {})
 DevTarget(d) == IF d.how = "nsx" THEN Top(d.t) \o "/" \o d.t \o ":k" \o d.n \o "/" \o d.by \o ":x" \o d.by
@@ -157,7 +181,8 @@ Expected(I) == [verdict |-> Verdict(I), schema |-> Schema(I)]
 \* (transitively) uses is an error by RFC 6020, but the property statement only demands that cycles are
 \* reported and that nothing crashes: when such references are the ONLY defect the verdict is not
 \* judged (totality and determinism still are).
-UsedKeys(I, k) == LET R0 == {<<r.m, r.n>> : r \in {x \in I.roots : x.k = k}} IN ReachFrom(KEdges(I, k), R0, R0)
+UsedKeys(I, k) == LET R0 == {DefKey(TargetDef(I, k, r.home, Ref(r.m, r.n))) : r \in {x \in I.roots : x.k = k /\ RootResolves(I, x)}}
+                  IN ReachFrom(KEdges(I, k), R0, R0)
 DanglingUsed(I) == \/ \E r \in I.roots : ~RootResolves(I, r)
                    \/ \E d \in I.defs : DefKey(d) \in UsedKeys(I, d.k) /\ \E r \in d.refs : ~Resolves(I, d.home, d.k, r)
 \* the defects of an instance, by class (names the failing class in reports and known findings)
@@ -165,14 +190,14 @@ CycleUsed(I, k) == \E x \in UsedKeys(I, k) : OnCycle(KEdges(I, k), x)
 Defects(I) ==
   (IF BadBelongs(I) THEN {"belongs-to"} ELSE {}) \cup (IF BadInclude(I) THEN {"include-unknown"} ELSE {})
   \cup (IF IncludeCycle(I) THEN {"include-cycle"} ELSE {}) \cup (IF ImportCycle(I) THEN {"import-cycle"} ELSE {})
-  \cup (IF ImportAbsent(I) THEN {"import-absent"} ELSE {})
+  \cup (IF ImportAbsent(I) THEN {"import-absent"} ELSE {}) \cup (IF Shadow(I) THEN {"shadow"} ELSE {})
   \cup UNION {IF ~HasCycle(KEdges(I, k)) THEN {} ELSE IF CycleUsed(I, k) THEN {k \o "-cycle-used"} ELSE {k \o "-cycle-unused"} : k \in Kinds}
   \cup (IF DanglingUsed(I) THEN {"dangling-used"} ELSE IF Dangling(I) THEN {"dangling-unused"} ELSE {})
   \cup (IF ~RefError(I) /\ Collides(UNION {OwnNodes(I, m) : m \in I.mods}) THEN {"name-clash"} ELSE {})
   \cup (IF ~RefError(I) /\ TargetError(I) THEN {"target-missing"} ELSE {})
 JudgeVerdict(I) == \/ Verdict(I) = "ok"
                    \/ BadBelongs(I) \/ BadInclude(I) \/ IncludeCycle(I) \/ ImportCycle(I) \/ ImportAbsent(I)
-                   \/ DefCycle(I) \/ DanglingUsed(I) \/ ~RefError(I)
+                   \/ DefCycle(I) \/ DanglingUsed(I) \/ Shadow(I) \/ ~RefError(I)
 
 \* ------------------------------------------------------------- mechanism
 VARIABLES inst, phase, todo, order, pos, trees, out
@@ -202,9 +227,12 @@ Consume(k) == /\ todo' = todo \ {k} /\ UNCHANGED <<inst, phase, order, pos, tree
 
 \* --- per key checks of the check-only phases (what the RFC forbids, looked at locally)
 AttachBad(I, s) == \E sb \in I.subs : sb[1] = s /\ sb[2] \notin I.mods
-IncludesBad(I, m) == \/ HasCycle(IncEdgesOf(I, m))
+\* (a scope shadowing a top-level name is refused when the scopes of the module are set up: the
+\* first phase that looks at the module)
+IncludesBad(I, m) == \/ ShadowIn(I, m)
+                     \/ HasCycle(IncEdgesOf(I, m))
                      \/ \E e \in IncEdgesOf(I, m) : e[2] \notin SubsOf(I, m)
-FeaturesBad(I, m) == \E f \in {d \in DefsK(I, "feature") : d.home = m} :
+FeaturesBad(I, m) == \E f \in {d \in DefsK(I, "feature") : ModH(d.home) = m} :
                         \/ ReachesCycle(KEdges(I, "feature"), DefKey(f))
                         \/ \E g \in {f} \cup {d \in DefsK(I, "feature") : DefKey(d) \in Reach1(KEdges(I, "feature"), DefKey(f))} :
                               \E r \in g.refs : ~Resolves(I, g.home, "feature", r)
@@ -212,26 +240,26 @@ IdBaseBad(I, key) == \E r \in IdOf(I, key).refs : ~Resolves(I, IdOf(I, key).home
 \* (the derived-identity tree is complete when the cycle loop runs)
 IdCycleBad(I, key) == LET E == {<<e[2], e[1]>> : e \in KEdges(I, "identity")} IN ReachesCycle(E, DefKey(IdOf(I, key)))
 \* grouping validation of module m: cycles (any module's groupings reachable) and unresolvable uses
-GroupingsBad(I, m) == \E g \in {d \in DefsK(I, "grouping") : d.home = m} :
+GroupingsBad(I, m) == \E g \in {d \in DefsK(I, "grouping") : ModH(d.home) = m} :
                          \/ ReachesCycle(KEdges(I, "grouping"), DefKey(g))
                          \/ \E r \in g.refs : ~Resolves(I, g.home, "grouping", r)
 
 \* --- expansion of module m (uses of its data nodes, then its augments, targets looked up in the
 \*     trees as they are NOW)
 ExpandBad(I, m) == \/ m \notin I.mods
-                   \/ \E r \in {x \in I.roots : x.home = m /\ x.k = "grouping"} : ~RootResolves(I, r)
-ExpandedOwn(I, m) == Literal(I, m) \cup UNION {RootNodes(I, r) : r \in {x \in I.roots : x.home = m /\ x.k = "grouping"}}
+                   \/ \E r \in {x \in I.roots : ModH(x.home) = m /\ x.k = "grouping"} : ~RootResolves(I, r)
+ExpandedOwn(I, m) == Literal(I, m) \cup UNION {RootNodes(I, r) : r \in {x \in I.roots : ModH(x.home) = m /\ x.k = "grouping"}}
 \* --- build of module m: types, identityrefs, if-features of its data nodes; typedef cycles anywhere in m
-BuildBad(I, m) == \/ \E r \in {x \in I.roots : x.home = m /\ x.k # "grouping"} : ~RootResolves(I, r)
-                  \/ \E d \in {x \in DefsK(I, "typedef") : x.home = m} :
+BuildBad(I, m) == \/ \E r \in {x \in I.roots : ModH(x.home) = m /\ x.k # "grouping"} : ~RootResolves(I, r)
+                  \/ \E d \in {x \in DefsK(I, "typedef") : ModH(x.home) = m} :
                         \/ ReachesCycle(KEdges(I, "typedef"), DefKey(d))
                         \/ \E r \in d.refs : ~Resolves(I, d.home, "typedef", r)
-                  \/ \E r \in {x \in I.roots : x.home = m /\ x.k = "typedef" /\ RootResolves(I, x)} :
-                        LET E == KEdges(I, "typedef")  k0 == <<r.m, r.n>> IN
+                  \/ \E r \in {x \in I.roots : ModH(x.home) = m /\ x.k = "typedef" /\ RootResolves(I, x)} :
+                        LET E == KEdges(I, "typedef")  k0 == DefKey(TargetDef(I, "typedef", r.home, Ref(r.m, r.n))) IN
                         \/ ReachesCycle(E, k0)
                         \/ \E d \in {x \in DefsK(I, "typedef") : DefKey(x) \in {k0} \cup Reach1(E, k0)} :
                               \E q \in d.refs : ~Resolves(I, d.home, "typedef", q)
-BuiltRoots(I, m) == UNION {RootNodes(I, r) : r \in {x \in I.roots : x.home = m /\ x.k # "grouping"}}
+BuiltRoots(I, m) == UNION {RootNodes(I, r) : r \in {x \in I.roots : ModH(x.home) = m /\ x.k # "grouping"}}
 
 PInit(I0) == /\ inst = I0 /\ phase = "attach" /\ todo = KeysOf(I0, "attach") /\ order = << >> /\ pos = 1
              /\ trees = [m \in I0.mods |-> {}] /\ out = [verdict |-> "none", schema |-> {}]
